@@ -22,6 +22,7 @@ from __future__ import annotations
 import ast
 import copy
 import functools
+import importlib
 import inspect
 import json
 import types
@@ -217,6 +218,33 @@ def bounded(rep, tier, seed):
                 n_eval += 1
                 if apirel.compare_frames(base, again, nodes):
                     bad.append({"what": f"{d}: after a run that replaced {name}, the baseline (same params and functions objects) gives different {apirel.compare_frames(base, again, nodes)[:5]}", "date": d, "kind": "history", "function": name})
+        # a reform module handed over as a FILE that defines one new column and merely imports an internal
+        # rule (another dated variant of an active column): only the new column may appear
+        import pathlib
+        import tempfile
+
+        imp_name, imp_mod = None, None
+        for nm, f_act in sorted(e.functions.items()):
+            f0_ = inspect.unwrap(f_act)
+            if f0_.__name__ != nm:  # the active variant is registered under name_in_dag
+                modobj = importlib.import_module(f0_.__module__)
+                cand = getattr(modobj, nm, None)
+                if callable(cand) and inspect.unwrap(cand) is not f0_ and nm in nodes:
+                    imp_name, imp_mod = nm, f0_.__module__
+                    break
+        if imp_name is not None:
+            with tempfile.TemporaryDirectory() as td:
+                pth = pathlib.Path(td) / "verif_reform_module.py"
+                pth.write_text(f"from {imp_mod} import {imp_name}\n\n\ndef verif_new_column_m(bruttolohn_m: float) -> float:\n    return bruttolohn_m * 0.5\n", encoding="utf-8")
+                try:
+                    res, _ = apirel.simulate(e, pop, targets=[*nodes, "verif_new_column_m"], functions=[e.functions, pth])
+                    n_eval += 1
+                    distinct.add((d, "reform-file", imp_name))
+                    diff = apirel.compare_frames(base, res, nodes)
+                    if diff:
+                        bad.append({"what": f"{d}: a reform file that only ADDS verif_new_column_m (and imports the inactive variant {imp_mod}.{imp_name}) changes {diff[:5]}", "date": d, "kind": "reform-file", "function": imp_name})
+                except Exception as ex:  # noqa: BLE001
+                    bad.append({"what": f"{d}: a reform file adding one column fails: {ex!r}"[:300], "date": d, "kind": "reform-file"})
         # in-place reform on a second environment must not leak into the first
         e2 = venv.Env(d)
         for g in e2.params:
